@@ -277,7 +277,8 @@ def ages_for(first, last, tier):
             a.append(int(x) if x == int(x) else x)
             x += 0.5
         return a
-    cand = [first, first + 0.5, first + 1, 30, 34.5, 35, 50, 72.5, last - 1, last - 0.5, last, last + 0.5, last + 1, last + 20]
+    cand = [first, first + 0.5, first + 1, 30, 34.5, 35, 50, 72.5, last - 1, last - 0.5, last, last + 0.5, last + 1, last + 20,
+            99.5, 100, 100.5, 101, 104.5, 105, 109.5, 110, 110.5, 111, 120]        # absolute ages shared by both table years
     return sorted(set(c for c in cand if first <= c <= last + 20), key=float)
 
 
@@ -287,15 +288,21 @@ def run_shard(ctx, spec):
     a = mon.a
     rnd = random.Random(ctx.seed * 69069 + spec['i'])
     jobs = []
-    for y in (2015, 2023):
-        for g in 'mf':
-            for r in mon.tables[y][g]:
-                jobs.append((y, g, r[0]))
+    # the two table years are interleaved event by event (2023 first, then 2015 at the same ages): the grader
+    # objects are shared, so a lookup remembered for one table must not be replayed on the other
+    for g in 'mf':
+        evs = list(dict.fromkeys([r[0] for r in mon.tables[2023][g]] + [r[0] for r in mon.tables[2015][g]]))
+        for ev in evs:
+            for y in (2023, 2015):
+                if (y, g, ev) in mon.rows:
+                    jobs.append((y, g, ev))
     for g in 'mf':
         for r in mon.tables['athlons'][g]:
             jobs.append(('athlons', g, r[0]))
     mults = [0.5, 0.9, 0.99, 1.0, 1.01, 1.1, 2.0] if ctx.tier == 'quick' else [0.3 + 0.07 * i for i in range(25)] + [1.0]
-    for (y, g, ev) in jobs[spec['i']::spec['n']]:
+    njobs = len(jobs)
+    mine = [j for k, j in enumerate(jobs) if (k // 2) % spec['n'] == spec['i']] if True else jobs
+    for (y, g, ev) in mine:
         if y == 'athlons':
             evs = [ev, ev.lower()] + (['80H', '100H', '110H', '80h', '300H', '400H', '200H'] if ev in ('SH', 'LH') else [])
             ages = list(range(0, 131)) + [34.5, 35.5, 39.99, 112.5] if ctx.tier == 'thorough' else \
